@@ -106,7 +106,16 @@ def run(ctx):
     phn = fx.body("clap_complete::engine::custom::path_has_name")
     sfn = fx.body("clap_complete::engine::custom::split_file_name")
     truthy = [d for d in phn.def_sites(0) if not (isinstance(d[3], dict) and d[3]["k"] == "use" and op_int(d[3]["op"]) == 0)]
-    okl = bool(truthy) and all((not isinstance(d[3], dict)) and d[3].callee_q.endswith("Option::is_some") and expr(phn, d[3].args[0]) == "file_name(path)" for d in truthy)
+    def _fn_some(body, d):
+        return (not isinstance(d[3], dict)) and d[3].callee_q.endswith("Option::is_some") and re.fullmatch(r"file_name\((path|arg1\.\d+)\)", expr(body, d[3].args[0])) is not None
+    def _truthy(body):
+        return [d for d in body.def_sites(0) if not (isinstance(d[3], dict) and d[3]["k"] == "use" and op_int(d[3]["op"]) == 0)]
+    okl = bool(truthy) and all(
+        _fn_some(phn, d) or
+        # `path_bytes.last().is_some_and(|trailing| !is_separator(..) && path.file_name().is_some())`: true only through the closure, whose every
+        # non-false result is the same file_name().is_some()
+        ((not isinstance(d[3], dict)) and d[3].is_(r"Option(<[^>]*>)?::is_some_and$") and all(bool(_truthy(cb)) and all(_fn_some(cb, d2) for d2 in _truthy(cb)) for cb in closure_bodies(fx, d[3])[-1:]) and bool(closure_bodies(fx, d[3])))
+        for d in truthy)
     res.check(okl, "R18.2", "lemma|path_has_name=>file_name-is-some", phn.where(), "every non-false result of path_has_name is path.file_name().is_some()",
               "path_has_name can return true without path.file_name().is_some() (%s): split_file_name's expect(\"not called with `..`\") panics for words ending in `.` / `..`" % [
                   (d[3] if isinstance(d[3], dict) else d[3].callee_q.rsplit("::", 1)[1] + "(" + expr(phn, d[3].args[0])[:40] + ")") for d in truthy][:2])
@@ -159,7 +168,11 @@ def run(ctx):
     res.check(okf, "R18.3", "prefix-filter|subcommand", cs.where(), "subcommand candidates filtered by starts_with(value)",
               "subcommand candidates are not filtered by the word under the cursor")
     for fn_, rx in (("complete_external_subcommand", r"Vec::retain$"), ("complete_custom_arg_value", r"Vec::retain$")):
-        b = fx.body("clap_complete::engine::complete::" + fn_)
+        b = fx.maybe_body("clap_complete::engine::complete::" + fn_)
+        if b is None and fn_ == "complete_external_subcommand":
+            b = fx.body("clap_complete::engine::complete::complete_subcommand")       # the helper written out in its only caller
+        elif b is None:
+            b = fx.body("clap_complete::engine::complete::" + fn_)
         ok_ = any(cb.calls_to(r"starts_with$", r"starts_with$") for f in b.calls_to(rx) for cb in closure_bodies(fx, f))
         res.check(ok_, "R18.3", "prefix-filter|" + fn_, b.where(), "retain(starts_with)", "%s does not filter by prefix" % fn_)
     cav = fx.body("clap_complete::engine::complete::complete_arg_value")
